@@ -141,6 +141,10 @@ func init() {
 		fr.i.ps.extra[str(args[0])] = fr.i.sprint(args[1])
 		return nil
 	}
+	ext[symPkg+".Output"] = func(fr *frame, args []value) value {
+		fr.i.ex.outputs[str(args[0])] = fr.i.sprint(args[1])
+		return nil
+	}
 	ext[symPkg+".Intercept"] = func(fr *frame, args []value) value {
 		fr.i.intercepts[str(args[0])] = args[1].(iface).v
 		fr.i.ex.stubs[str(args[0])]++
@@ -621,6 +625,20 @@ func init() {
 		return nil
 	}
 
+	// sync.Pool: no pooling, Get always builds a new value
+	ext["(*sync.Pool).Get"] = func(fr *frame, args []value) value {
+		st := (*args[0].(*value)).(structure)
+		newFn := st[len(st)-1]
+		switch f := newFn.(type) {
+		case *ssa.Function:
+			if f == nil {
+				return iface{}
+			}
+		}
+		return call(fr.i, fr, token.NoPos, newFn, nil)
+	}
+	ext["(*sync.Pool).Put"] = func(fr *frame, args []value) value { return nil }
+
 	// errors
 	ext["errors.Is"] = func(fr *frame, args []value) value {
 		return fr.i.errorsIs(fr, args[0].(iface), args[1].(iface))
@@ -649,11 +667,7 @@ func init() {
 		return fr.i.errorf(fr, str(args[0]), args[1].([]value))
 	}
 	ext["fmt.Sprint"] = func(fr *frame, args []value) value {
-		var parts []string
-		for _, a := range args[0].([]value) {
-			parts = append(parts, fr.i.sprintv(fr, a, 'v'))
-		}
-		return strings.Join(parts, "")
+		return fr.i.sprintArgs(fr, args[0].([]value))
 	}
 	ext["fmt.Sprintln"] = func(fr *frame, args []value) value {
 		var parts []string
@@ -665,8 +679,32 @@ func init() {
 	for _, n := range []string{"fmt.Printf", "fmt.Println", "fmt.Print"} {
 		ext[n] = func(fr *frame, args []value) value { return tuple{0, iface{}} }
 	}
-	for _, n := range []string{"fmt.Fprintf", "fmt.Fprintln", "fmt.Fprint"} {
-		ext[n] = func(fr *frame, args []value) value { return tuple{0, iface{}} }
+	fwrite := func(fr *frame, w value, s string) value {
+		wi, ok := w.(iface)
+		if !ok || wi.t == nil {
+			return tuple{0, iface{}}
+		}
+		if m := fr.i.methodOf(wi.t, "Write"); m != nil {
+			b := make([]value, len(s))
+			for k := 0; k < len(s); k++ {
+				b[k] = s[k]
+			}
+			return call(fr.i, fr, token.NoPos, m, []value{wi.v, b})
+		}
+		return tuple{len(s), iface{}}
+	}
+	ext["fmt.Fprintf"] = func(fr *frame, args []value) value {
+		return fwrite(fr, args[0], fr.i.sprintf(fr, str(args[1]), args[2].([]value)))
+	}
+	ext["fmt.Fprint"] = func(fr *frame, args []value) value {
+		return fwrite(fr, args[0], fr.i.sprintArgs(fr, args[1].([]value)))
+	}
+	ext["fmt.Fprintln"] = func(fr *frame, args []value) value {
+		var parts []string
+		for _, a := range args[1].([]value) {
+			parts = append(parts, fr.i.sprintv(fr, a, 'v'))
+		}
+		return fwrite(fr, args[0], strings.Join(parts, " ")+"\n")
 	}
 
 	// unsafe builtins are handled in callBuiltin (ops.go) via name; see unsafeBuiltin
@@ -1019,6 +1057,15 @@ func (i *interpreter) format(fr *frame, format string, args []value) (string, []
 			}
 		}
 		out := i.sprintv(fr, a, verb)
+		if itf, ok := a.(iface); ok && itf.t != nil && flags != "" {
+			if i.methodOf(itf.t, "Error") == nil && i.methodOf(itf.t, "String") == nil {
+				switch bv := itf.v.(type) {
+				case bool, int, int8, int16, int32, int64, uint, uint8, uint16, uint32, uint64, uintptr, float32, float64, string:
+					out = fmt.Sprintf("%"+flags+string(verb), bv)
+					flags = ""
+				}
+			}
+		}
 		if verb == 'T' {
 			if itf, ok := a.(iface); ok && itf.t != nil {
 				out = itf.t.String()
@@ -1077,4 +1124,30 @@ func sortedKeys(m map[string]int) []string {
 	}
 	sort.Strings(r)
 	return r
+}
+
+// sprintArgs implements fmt.Sprint's spacing rule: a space is added between operands when
+// neither is a string.
+func (i *interpreter) sprintArgs(fr *frame, args []value) string {
+	var sb strings.Builder
+	prevString := false
+	for k, a := range args {
+		isString := false
+		if itf, ok := a.(iface); ok {
+			switch itf.v.(type) {
+			case string, symstr:
+				if itf.t != nil {
+					if b, ok := itf.t.Underlying().(*types.Basic); ok && b.Kind() == types.String {
+						isString = true
+					}
+				}
+			}
+		}
+		if k > 0 && !isString && !prevString {
+			sb.WriteByte(' ')
+		}
+		sb.WriteString(i.sprintv(fr, a, 'v'))
+		prevString = isString
+	}
+	return sb.String()
 }
